@@ -1,5 +1,7 @@
 package main
 
+import "github.com/karino2/folang/pkg/frt"
+
 // the same callees in the current package (package_info _)
 
 func e1(a int) int          { return 7 * a }
@@ -27,3 +29,25 @@ func refE(n int, v []int) int {
 }
 
 func zeroOr[T any](a int, b int) []T { return make([]T, 1) }
+
+// opaque / parametrised external types of the current package and generic higher-order callees
+type Opaque struct{ v int }
+type Holder2[T any] struct{ Held T }
+
+func mkOpaque(a int) Opaque          { return Opaque{a * 3} }
+func opaqueVal(o Opaque) int         { return o.v }
+func wrapH[T any](t T) Holder2[T]    { return Holder2[T]{t} }
+func unwrapH[T any](h Holder2[T]) T  { return h.Held }
+func applyAll[T any](f func(T) T, xs []T) []T {
+	var r []T
+	for _, x := range xs {
+		r = append(r, f(x))
+	}
+	return r
+}
+func foldPairs[T any, U any](f func(T, U) T, z T, xs []U) frt.Tuple2[T, int] {
+	for _, x := range xs {
+		z = f(z, x)
+	}
+	return frt.NewTuple2(z, len(xs))
+}
